@@ -11,10 +11,10 @@ LEVEL_TEXT = ('PATH CONSTRUCTION ONLY. keys.path_expand is proved, for every acc
               'against templates restated from the BIPs (not read from config.py). Key material for a path is BIP32 derivation: the CKD contracts '
               'of C03 are part of this check.')
 LEVEL_NOTE = ('Index bookkeeping, address uniqueness, restore / watch-only equivalence and reopen are wallet / database HISTORIES outside the verifier (SQLAlchemy). '
-              'They are covered by a BOUNDED native stand-in (bounded/c09_wallet.py, never counted as proved): wallets of 3 witness types x 3 networks driven through random '
+              'They are covered by a BOUNDED native stand-in (bounded/c09_wallet.py, never counted as proved): wallets of 3 witness types x 3 networks (keys of the other witness types requested from the same wallet too) driven through scripted and random '
               'sequences of new_key / new_key_change / get_key(s) / key_for_path (out of order) / new_account / reopen, judged by an oracle independent of the wallet code '
               '(BIP32 derivation from the seed with spec/bip32 + pure-Python secp256k1, address encodings from spec, network constants written out in the harness).')
-NOT_COVERED = ['Wallet.new_key(s) / get_key(s) / keys_for_path / new_account index bookkeeping as proofs (bounded harness only)', 'mixed witness types in one wallet, multisig wallets (C10), mnemonic restore (C14)', 'normalize_path']
+NOT_COVERED = ['Wallet.new_key(s) / get_key(s) / keys_for_path / new_account index bookkeeping as proofs (bounded harness only)', 'multisig wallets (C10), mnemonic restore (C14)', 'normalize_path']
 TRUSTED = ['BIP path templates as restated in contracts/paths.py', 'C03 trusted base']
 FUZZ_QUICK = 60
 
